@@ -1087,6 +1087,23 @@ def hole_roles(ctx, fi: FuncInfo, e: ast.expr, depth=0, seen=None) -> set:
                     idx = [i for i, x in enumerate(tg.elts) if isinstance(x, ast.Name) and x.id == e.id]
                     if idx and "edge" in hole_sources(ctx, fi, v.id) and idx[0] < 2:
                         out.add("label+0")
+                elif isinstance(tg, (ast.Tuple, ast.List)):
+                    idx = [i for i, x in enumerate(tg.elts) if isinstance(x, ast.Name) and x.id == e.id]
+                    if not idx:
+                        continue
+                    k_ = idx[0]
+                    if isinstance(v, (ast.Tuple, ast.List)) and len(v.elts) == len(tg.elts):
+                        out |= hole_roles(ctx, fi, v.elts[k_], depth + 1, seen)        # x, y, z = (a, b, c)
+                    elif isinstance(v, ast.Subscript) and isinstance(v.value, ast.Name):
+                        # x, y, z = table[key] with table = helper(..) returning {key: (a, b, c) ...}
+                        dv = single_def(fn, v.value.id)
+                        if isinstance(dv, ast.Call):
+                            cs_ = ctx.cg.resolve_call(fi, dv, ctx.cg.local_types(fi), set(params_of(fn)))
+                            if cs_.kind == "tucan":
+                                for r_ in own_walk(cs_.target.node):
+                                    if isinstance(r_, ast.Return) and isinstance(r_.value, ast.DictComp) and isinstance(r_.value.value, (ast.Tuple, ast.List)) \
+                                            and len(r_.value.value.elts) == len(tg.elts):
+                                        out |= hole_roles(ctx, cs_.target, r_.value.value.elts[k_], depth + 1, set())
         return out
     for c in ast.iter_child_nodes(e):
         if isinstance(c, ast.expr):
